@@ -13,6 +13,7 @@ import (
 	"io"
 	"os"
 	"os/exec"
+	"runtime"
 	"sort"
 	"strings"
 	"sync"
@@ -233,45 +234,54 @@ func suiteSched(o *suiteOut, r *rng, tier string, n int) {
 	for _, p := range []string{"xyz", "x", "", "%", "%!", "%!PS\n1 2", "%x", "% !", "%!\n>x"} {
 		pool = append(pool, input{"psc", []byte(p), "start check"})
 	}
+	var wg sync.WaitGroup
+	sem := make(chan struct{}, runtime.NumCPU())
 	for idx, in := range pool {
-		base := runInput(in.kind, bytes.NewReader(in.data))
-		o.count("inputs of kind " + in.kind)
-		cp := func() []byte { return append([]byte{}, in.data...) }
-		schedCase(o, in, "one-byte", &chunkedReader{data: cp(), next: func(int) int { return 1 }}, base, idx)
-		schedCase(o, in, "one-byte+eof", &chunkedReader{data: cp(), next: func(int) int { return 1 }, eofWith: true}, base, idx)
-		schedCase(o, in, "all+eof", &chunkedReader{data: cp(), next: func(rem int) int { return rem }, eofWith: true}, base, idx)
-		schedCase(o, in, "not-seekable", notSeekable{bytes.NewReader(in.data)}, base, idx)
-		for k := 0; k < 3; k++ {
-			rr := newRng(r.next())
-			schedCase(o, in, fmt.Sprintf("random-%d", k), &chunkedReader{data: cp(), next: func(int) int { return pick(rr, []int{1, 2, 3, 7, 64, 511, 512, 513, 4000}) }, eofWith: rr.chance(1, 2)}, base, idx)
-		}
-		// two-chunk splits: every position for short inputs, a sample otherwise
-		var cuts []int
-		if len(in.data) <= 400 || tier == "thorough" && len(in.data) <= 3000 {
-			for k := 0; k <= len(in.data); k++ {
-				cuts = append(cuts, k)
+		idx, in, r := idx, in, newRng(r.next())
+		wg.Add(1)
+		sem <- struct{}{}
+		go func() {
+			defer func() { <-sem; wg.Done() }()
+			base := runInput(in.kind, bytes.NewReader(in.data))
+			o.count("inputs of kind " + in.kind)
+			cp := func() []byte { return append([]byte{}, in.data...) }
+			schedCase(o, in, "one-byte", &chunkedReader{data: cp(), next: func(int) int { return 1 }}, base, idx)
+			schedCase(o, in, "one-byte+eof", &chunkedReader{data: cp(), next: func(int) int { return 1 }, eofWith: true}, base, idx)
+			schedCase(o, in, "all+eof", &chunkedReader{data: cp(), next: func(rem int) int { return rem }, eofWith: true}, base, idx)
+			schedCase(o, in, "not-seekable", notSeekable{bytes.NewReader(in.data)}, base, idx)
+			for k := 0; k < 3; k++ {
+				rr := newRng(r.next())
+				schedCase(o, in, fmt.Sprintf("random-%d", k), &chunkedReader{data: cp(), next: func(int) int { return pick(rr, []int{1, 2, 3, 7, 64, 511, 512, 513, 4000}) }, eofWith: rr.chance(1, 2)}, base, idx)
 			}
-		} else {
-			cuts = []int{0, 1, 2, 511, 512, 513, 1023, 1024, 1025, len(in.data) - 1, len(in.data)}
-			for k := 0; k < 25; k++ {
-				cuts = append(cuts, r.intn(len(in.data)+1))
-			}
-		}
-		for _, k := range cuts {
-			if k < 0 || k > len(in.data) {
-				continue
-			}
-			first := true
-			kk := k
-			schedCase(o, in, fmt.Sprintf("split-%d", k), &chunkedReader{data: cp(), next: func(rem int) int {
-				if first && kk > 0 {
-					first = false
-					return kk
+			// two-chunk splits: every position for short inputs, a sample otherwise
+			var cuts []int
+			if len(in.data) <= 400 || tier == "thorough" && len(in.data) <= 3000 {
+				for k := 0; k <= len(in.data); k++ {
+					cuts = append(cuts, k)
 				}
-				return rem
-			}}, base, idx)
-		}
+			} else {
+				cuts = []int{0, 1, 2, 511, 512, 513, 1023, 1024, 1025, len(in.data) - 1, len(in.data)}
+				for k := 0; k < 25; k++ {
+					cuts = append(cuts, r.intn(len(in.data)+1))
+				}
+			}
+			for _, k := range cuts {
+				if k < 0 || k > len(in.data) {
+					continue
+				}
+				first := true
+				kk := k
+				schedCase(o, in, fmt.Sprintf("split-%d", k), &chunkedReader{data: cp(), next: func(rem int) int {
+					if first && kk > 0 {
+						first = false
+						return kk
+					}
+					return rem
+				}}, base, idx)
+			}
+		}()
 	}
+	wg.Wait()
 	// a program fed in several consecutive Execute calls, split at token boundaries
 	ns := 300
 	if tier == "thorough" {
